@@ -10,8 +10,13 @@ use sha2::{Digest, Sha256};
 use std::io::{Cursor, Read};
 
 pub fn readback(par: &Par, bytes: &[u8], files: &Value) -> Option<Value> {
+    readback_from(par, Cursor::new(bytes.to_vec()), files)
+}
+
+/// Read a finalized archive back from any `Read + Seek` source and compare with the model's `Files`
+pub fn readback_from<R: Read + std::io::Seek>(par: &Par, src: R, files: &Value) -> Option<Value> {
     let cfg = archive::reader_config(par);
-    let mut r = match guarded(|| ArchiveReader::from_config(Cursor::new(bytes.to_vec()), cfg)) {
+    let mut r = match guarded(|| ArchiveReader::from_config(src, cfg)) {
         Ok(Ok(r)) => r,
         Ok(Err(e)) => return Some(json!({"kind": "open-error", "got": format!("{e:?}")})),
         Err(p) => return Some(json!({"kind": "panic", "where": "open", "got": p})),
